@@ -9,6 +9,15 @@ export VERIF_DIR="$VERIF"
 export GOFLAGS=-mod=mod GOPROXY=off GOTOOLCHAIN=local GOLOG_LOG_LEVEL=fatal
 GO=go1.26.8
 W="$VERIF/.work"
+MODFLAG=""
+if [ -n "${VERIF_REPO:-}" ] && [ "$REPO" != "/repo" ]; then
+  # maintenance: run the checks against another copy of the repository (a scratch worktree holding a
+  # seeded change) without touching /repo: separate work dir, go.mod replaced to that copy
+  W="$VERIF/.work/alt"
+  mkdir -p "$W"
+  sed "s|=> /repo|=> $REPO|" "$VERIF/go.mod" > "$W/alt.mod"; cp "$VERIF/go.sum" "$W/alt.sum" 2>/dev/null
+  MODFLAG="-modfile=$W/alt.mod"
+fi
 mkdir -p "$W/bin" "$VERIF/evidence" "$VERIF/out"
 build() {
   ( cd "$VERIF" && cp "$REPO/go.sum" go.sum 2>/dev/null
@@ -18,7 +27,7 @@ build() {
     fi
     rm -rf "$W/ov"
     "$W/bin/vrewrite" -repo "$REPO" -out "$W/ov" -shimdir "$VERIF/shim" -also "$VERIF/harness,$VERIF/props" || exit 2
-    $GO build -overlay "$W/ov/overlay.json" -o "$W/bin/check" ./cmd/check || exit 2
+    $GO build $MODFLAG -overlay "$W/ov/overlay.json" -o "$W/bin/check" ./cmd/check || exit 2
   )
 }
 case "${1:-}" in
